@@ -36,12 +36,17 @@ from ural.patterns import PROTOCOL_RE, CONTROL_CHARS_RE
 from ural.facebook import is_facebook_url, parse_facebook_url
 from ural.youtube import is_youtube_url, normalize_youtube_url
 
-IRRELEVANT_QUERY_PATTERN = r"^(?:__twitter_impression|_guc_consent_skip|guccounter|fb_action_types|(?:php|asp|j)?sessionid|fb_action_ids|fb_source|echobox|feature|recruiter|_unique_id|twclid|mibextid|campaignid|adgroupid|cn-reloaded|ao_noptimize|mkt_tok|fbclid|igshid|refid|gclid|mc_cid|mc_eid|__tn__|_ft_|dclid|wpamp|fref|usqp|ncid|mtm_.+|utm_.+%s|s?een|cftoken|cfid|sid|xt(?:loc|ref|cr|np|or|s)|at_.+|_ga)$"
+IRRELEVANT_QUERY_PATTERN = r"^(?:__twitter_impression|_guc_consent_skip|guccounter|fb_action_types|(?:php|asp|j)?sessionid|fb_action_ids|fb_source|echobox|feature|recruiter|_unique_id|twclid|mibextid|campaignid|adgroupid|cn-reloaded|ao_noptimize|mkt_tok|fbclid|igshid|refid|gclid|mc_cid|mc_eid|__tn__|_ft_|dclid|fref|ncid|mtm_.+|utm_.+%s|s?een|cftoken|cfid|sid|xt(?:loc|ref|cr|np|or|s)|at_.+|_ga)$"
 
 IRRELEVANT_SUBDOMAIN_PATTERN = r"(?<![^.])(?:www\d?|mobile%s|m)\."
 
-AMP_QUERY_PATTERN = r"|amp_.+|amp"
-AMP_QUERY_COMBOS = {"outputtype": ("amp",)}
+AMP_QUERY_PATTERN = r"|amp_.+|amp|wpamp|usqp"
+AMP_QUERY_COMBOS = {
+    "outputtype": ("amp",),
+    "marfeeltn": ("amp",),
+    "mode": ("amp",),
+    "output": ("amp",),
+}
 AMP_SUBDOMAIN_PATTERN = r"|amp"
 AMP_SUFFIXES_RE = re.compile(r"(?:\.amp(?=\.html$)|\.amp/?$|/amp/?$)", re.I)
 
@@ -54,9 +59,6 @@ IRRELEVANT_SUBDOMAIN_AMP_RE = re.compile(
 )
 
 IRRELEVANT_QUERY_COMBOS = {
-    "marfeeltn": ("amp",),
-    "mode": ("amp",),
-    "output": ("amp",),
     "platform": ("hootsuite",),
     "fromref": ("twitter",),
     "m": (
